@@ -395,8 +395,12 @@ dline(const char *name, const int fail, const int expect)
         printf("D var=%s name=%s kind=%s expect=%d get=%d field=%d glob=%d\n", g_var, name, fail ? "fail" : "ok",
                expect, imb_get_errno(D), D->imb_errno, imb_get_errno(NULL));
 }
+/* a succeeding call must leave 0 whatever the code was before: poison the mirror first */
+static int g_poison = 1;
 #define OK(name, call)                                                                                              \
         do {                                                                                                        \
+                if (g_poison)                                                                                       \
+                        D->keyexp_128(NULL, NULL, NULL);                                                            \
                 call;                                                                                               \
                 dline(name, 0, 0);                                                                                  \
         } while (0)
@@ -525,6 +529,90 @@ run_direct(IMB_MGR *mgr)
         FAIL("imb_hmac_ipad_opad(md5,keylen=65)", IMB_ERR_KEY_LEN, imb_hmac_ipad_opad(mgr, IMB_AUTH_MD5, buf, 65, ipad, opad));
         OK("imb_hmac_ipad_opad(md5)", imb_hmac_ipad_opad(mgr, IMB_AUTH_MD5, key, 16, ipad, opad));
 
+        /* more succeeding direct calls (each after a failing one: the poison) */
+        {
+                static kasumi_key_sched_t kks9;
+                static DECLARE_ALIGNED(uint8_t s3g[8192], 64);
+                static struct chacha20_poly1305_context_data cctx;
+                static DECLARE_ALIGNED(uint32_t sm4e[32], 16);
+                static DECLARE_ALIGNED(uint32_t sm4d[32], 16);
+
+                OK("KASUMI_INIT_F9_KEY_SCHED", (void) IMB_KASUMI_INIT_F9_KEY_SCHED(mgr, key, &kks9));
+                OK("KASUMI_F9_1_BUFFER", IMB_KASUMI_F9_1_BUFFER(mgr, &kks9, buf, 32, tag));
+                OK("KASUMI_INIT_F8_KEY_SCHEDb", (void) IMB_KASUMI_INIT_F8_KEY_SCHED(mgr, key, &kks9));
+                OK("KASUMI_F8_1_BUFFER_BIT", IMB_KASUMI_F8_1_BUFFER_BIT(mgr, &kks9, 1, buf, out, 70, 3));
+                OK("SNOW3G_INIT_KEY_SCHEDb", (void) IMB_SNOW3G_INIT_KEY_SCHED(mgr, key, (snow3g_key_schedule_t *) s3g));
+                OK("SNOW3G_F9_1_BUFFER", IMB_SNOW3G_F9_1_BUFFER(mgr, (snow3g_key_schedule_t *) s3g, iv, buf, 256, tag));
+                OK("SNOW3G_F8_1_BUFFER_BIT", IMB_SNOW3G_F8_1_BUFFER_BIT(mgr, (snow3g_key_schedule_t *) s3g, iv, buf, out, 70, 3));
+                {
+                        /* multi-buffer direct calls (pure getters such as *_KEY_SCHED_SIZE, which have no
+                         * failure mode and never touch the code, are deliberately not in the battery) */
+                        const void *ivs[8] = { iv, iv, iv, iv, iv, iv, iv, iv };
+                        const void *srcs[8] = { buf, buf + 32, buf + 64, buf + 96, buf, buf + 32, buf + 64, buf + 96 };
+                        void *dsts[8] = { out, out + 32, out + 64, out + 96, out + 128, out + 160, out + 192, out + 224 };
+                        uint32_t lens[8] = { 32, 32, 32, 32, 32, 32, 32, 32 };
+                        const snow3g_key_schedule_t *keys8[8];
+                        const void *zkeys[8] = { key, key, key, key, key, key, key, key };
+                        uint32_t *tags[8];
+                        static uint32_t tagw[8];
+                        uint64_t kiv[4] = { 1, 2, 3, 4 };
+
+                        for (int q = 0; q < 8; q++) {
+                                keys8[q] = (const snow3g_key_schedule_t *) s3g;
+                                tags[q] = &tagw[q];
+                        }
+                        OK("SNOW3G_F8_2_BUFFER", IMB_SNOW3G_F8_2_BUFFER(mgr, (snow3g_key_schedule_t *) s3g, iv, iv, buf, out, 32, buf + 32, out + 32, 32));
+                        OK("SNOW3G_F8_4_BUFFER", IMB_SNOW3G_F8_4_BUFFER(mgr, (snow3g_key_schedule_t *) s3g, iv, iv, iv, iv, buf, out, 32, buf + 32, out + 32, 32, buf + 64, out + 64, 32, buf + 96, out + 96, 32));
+                        OK("SNOW3G_F8_N_BUFFER", IMB_SNOW3G_F8_N_BUFFER(mgr, (snow3g_key_schedule_t *) s3g, ivs, srcs, dsts, lens, 5));
+                        OK("SNOW3G_F8_8_BUFFER_MULTIKEY", IMB_SNOW3G_F8_8_BUFFER_MULTIKEY(mgr, keys8, ivs, srcs, dsts, lens));
+                        OK("SNOW3G_F8_N_BUFFER_MULTIKEY", IMB_SNOW3G_F8_N_BUFFER_MULTIKEY(mgr, keys8, ivs, srcs, dsts, lens, 3));
+                        OK("KASUMI_F8_2_BUFFER", IMB_KASUMI_F8_2_BUFFER(mgr, &kks9, 1, 2, buf, out, 32, buf + 32, out + 32, 32));
+                        OK("KASUMI_F8_3_BUFFER", IMB_KASUMI_F8_3_BUFFER(mgr, &kks9, 1, 2, 3, buf, out, buf + 32, out + 32, buf + 64, out + 64, 32));
+                        OK("KASUMI_F8_4_BUFFER", IMB_KASUMI_F8_4_BUFFER(mgr, &kks9, 1, 2, 3, 4, buf, out, buf + 32, out + 32, buf + 64, out + 64, buf + 96, out + 96, 32));
+                        OK("KASUMI_F8_N_BUFFER", IMB_KASUMI_F8_N_BUFFER(mgr, &kks9, kiv, srcs, dsts, lens, 4));
+                        OK("KASUMI_F9_1_BUFFER_USER", IMB_KASUMI_F9_1_BUFFER_USER(mgr, &kks9, 5, buf, 100, tag, 0));
+                        OK("ZUC_EEA3_4_BUFFER", IMB_ZUC_EEA3_4_BUFFER(mgr, zkeys, ivs, srcs, dsts, lens));
+                        OK("ZUC_EEA3_N_BUFFER", IMB_ZUC_EEA3_N_BUFFER(mgr, zkeys, ivs, srcs, dsts, lens, 6));
+                        OK("ZUC_EIA3_N_BUFFER", IMB_ZUC_EIA3_N_BUFFER(mgr, zkeys, ivs, srcs, lens, tags, 5));
+                        OK("imb_sm4_gcm_pre", imb_sm4_gcm_pre(mgr, key, &gk));
+                }
+                OK("AES128_CFB_ONE", IMB_AES128_CFB_ONE(mgr, out, buf, iv, ek, 10));
+                OK("AES256_CFB_ONE", IMB_AES256_CFB_ONE(mgr, out, buf, iv, ek, 16));
+                OK("SM4_KEYEXP", IMB_SM4_KEYEXP(mgr, key, sm4e, sm4d));
+                OK("CHACHA20_POLY1305_INIT", IMB_CHACHA20_POLY1305_INIT(mgr, key, &cctx, iv, buf, 8));
+                OK("CHACHA20_POLY1305_ENC_UPDATE", IMB_CHACHA20_POLY1305_ENC_UPDATE(mgr, key, &cctx, out, buf, 40));
+                OK("CHACHA20_POLY1305_ENC_FINALIZE", IMB_CHACHA20_POLY1305_ENC_FINALIZE(mgr, &cctx, tag, 16));
+                OK("HEC_32", (void) IMB_HEC_32(mgr, buf));
+                OK("HEC_64", (void) IMB_HEC_64(mgr, buf));
+                OK("CRC32_SCTP", (void) IMB_CRC32_SCTP(mgr, buf, 64));
+                OK("CRC24_LTE_A", (void) IMB_CRC24_LTE_A(mgr, buf, 64));
+                OK("CRC24_LTE_B", (void) IMB_CRC24_LTE_B(mgr, buf, 64));
+                OK("CRC16_FP_DATA", (void) IMB_CRC16_FP_DATA(mgr, buf, 64));
+                OK("CRC11_FP_HEADER", (void) IMB_CRC11_FP_HEADER(mgr, buf, 64));
+                OK("CRC7_FP_HEADER", (void) IMB_CRC7_FP_HEADER(mgr, buf, 64));
+                OK("CRC10_IUUP_DATA", (void) IMB_CRC10_IUUP_DATA(mgr, buf, 64));
+                OK("CRC6_IUUP_HEADER", (void) IMB_CRC6_IUUP_HEADER(mgr, buf, 64));
+                OK("CRC32_WIMAX_OFDMA_DATA", (void) IMB_CRC32_WIMAX_OFDMA_DATA(mgr, buf, 64));
+                OK("CRC8_WIMAX_OFDMA_HCS", (void) IMB_CRC8_WIMAX_OFDMA_HCS(mgr, buf, 64));
+                OK("AES_KEYEXP_256b", IMB_AES_KEYEXP_256(mgr, key, ek, dk));
+                OK("AES_CMAC_SUBKEY_GEN_256", IMB_AES_CMAC_SUBKEY_GEN_256(mgr, ek, k2, k3));
+                OK("AES192_GCM_PRE", IMB_AES192_GCM_PRE(mgr, key, &gk));
+                OK("AES192_GCM_ENC", IMB_AES192_GCM_ENC(mgr, &gk, &gctx, out, buf, 33, iv, buf, 5, tag, 12));
+                OK("AES256_GCM_PREb", IMB_AES256_GCM_PRE(mgr, key, &gk));
+                OK("AES256_GCM_DEC", IMB_AES256_GCM_DEC(mgr, &gk, &gctx, out, buf, 1, iv, buf, 0, tag, 8));
+                OK("AES256_GCM_PRECOMP", IMB_AES256_GCM_PRECOMP(mgr, &gk));
+                OK("AES256_GCM_INIT_VAR_IV", IMB_AES256_GCM_INIT_VAR_IV(mgr, &gk, &gctx, iv, 16, buf, 4));
+                OK("AES256_GCM_DEC_UPDATE", IMB_AES256_GCM_DEC_UPDATE(mgr, &gk, &gctx, out, buf, 20));
+                OK("AES256_GCM_DEC_FINALIZE", IMB_AES256_GCM_DEC_FINALIZE(mgr, &gk, &gctx, tag, 16));
+                OK("AES256_GMAC_INIT", IMB_AES256_GMAC_INIT(mgr, &gk, &gctx, iv, 12));
+                OK("AES256_GMAC_UPDATE", IMB_AES256_GMAC_UPDATE(mgr, &gk, &gctx, buf, 48));
+                OK("AES256_GMAC_FINALIZE", IMB_AES256_GMAC_FINALIZE(mgr, &gk, &gctx, tag, 16));
+                OK("SHA224_ONE_BLOCK", IMB_SHA224_ONE_BLOCK(mgr, buf, tag));
+                OK("SHA512_ONE_BLOCK", IMB_SHA512_ONE_BLOCK(mgr, buf, tag));
+                OK("SHA384", IMB_SHA384(mgr, buf, 130, tag));
+                OK("SHA256", IMB_SHA256(mgr, buf, 64, tag));
+                OK("AES_KEYEXP_128c", IMB_AES_KEYEXP_128(mgr, key, ek, dk));
+        }
         /* job API housekeeping calls */
         OK("GET_NEXT_JOB", j = IMB_GET_NEXT_JOB(mgr));
         OK("GET_COMPLETED_JOB(empty)", (void) IMB_GET_COMPLETED_JOB(mgr));
@@ -596,9 +684,11 @@ run_direct(IMB_MGR *mgr)
         fill_cbc(j, ek, dk, buf, iv);
         j->dst = NULL;
         FAIL("SUBMIT_JOB(dst=NULL)", IMB_ERR_JOB_NULL_DST, (void) IMB_SUBMIT_JOB(mgr));
+        g_poison = 0;
         OK("stale:AES_KEYEXP_128(after-flagged-job)", IMB_AES_KEYEXP_128(mgr, key, ek, dk));
         FAIL("stale:AES_KEYEXP_128(key=NULL,after-flagged-job)", IMB_ERR_NULL_KEY, IMB_AES_KEYEXP_128(mgr, NULL, ek, dk));
         OK("stale:SHA1_ONE_BLOCK(after-flagged-job)", IMB_SHA1_ONE_BLOCK(mgr, buf, tag));
+        g_poison = 1;
         OK("FLUSH_JOB(after-stale)", (void) IMB_FLUSH_JOB(mgr));
         while (IMB_FLUSH_JOB(mgr) != NULL)
                 ;
